@@ -84,8 +84,9 @@ SPECS.append({
   H("C07", DB, "OnlyFallbackExpansion", "both", ["lexical-answer", "no-lexical-answer"], "8 commands named like hint targets; symbolic 4-letter query word (+ optional second word), NLP on", "answers that exist only through NLP expansion are not overridden either"),
   H("C07", DB, "FallbackLongText", "both", ["fallback", "fallback-nonempty"], "a 132-character command text; 2 symbolic query letters; threshold 0 / -1000", "a genuine match with a very low raw score is still returned"),
   H("C07", DB, "Matcher23", "both", ["matched", "unmatched"], "pattern 1-2, target 0-3 symbolic ASCII bytes", "match <=> in-order occurrence; index sanity"),
-  H("C07", DB, "Matcher35", "thorough", ["matched", "unmatched"], "pattern 1-3, target 0-5 symbolic ASCII bytes", "same"),
-  H("C07", DB, "Fallback3", "thorough", ["fallback", "fallback-nonempty"], "3 commands with long words, 2 symbolic query letters, threshold any int", "genuine matches, threshold, order, completeness"),
+  H("C07", DB, "Matcher24", "thorough", ["matched", "unmatched"], "pattern 1-2, target 0-4 symbolic ASCII bytes", "same"),
+  H("C07", DB, "Fallback3", "both", ["fallback", "fallback-nonempty"], "3 commands with long words, 2 symbolic query letters, threshold any int", "genuine matches, threshold, order, completeness"),
+  H("C07", DB, "Fallback5", "thorough", ["fallback", "fallback-nonempty"], "5 commands", "same"),
  ],
  "manifest": {"text": "Bounded symbolic model checking: two-run relation for 'fallback only when nothing matches', and the real fuzzy matcher on symbolic bytes against a subsequence oracle.",
               "note": "Trusted: executor + intrinsics, z3/cvc5, go/ssa. Bounds: ASCII, pattern<=3, target<=5, databases<=7 commands."},
